@@ -1057,4 +1057,361 @@ end
 theorem pairOrder_off {o : Opts} (hp : o.pairsOn = false) (t : Val) : pairOrder o t = t :=
   pairOrder_off_aux o (by intro xs; simp [pairSel, hp]) t
 
+/-! ### Part 5: the constructor side — the reader with `object_pairs_hook=n0dict` -/
+
+mutual
+/-- class tags of what `json.loads(text, object_pairs_hook=n0dict)` builds: every object is an
+n0dict, arrays stay plain lists -/
+def tagN0 : Val → Val
+  | .list c xs => .list c (tagL xs)
+  | .dict _ kvs => .dict .n0 (tagK kvs)
+  | v => v
+def tagL : List Val → List Val
+  | [] => []
+  | x :: xs => tagN0 x :: tagL xs
+def tagK : List (Str × Val) → List (Str × Val)
+  | [] => []
+  | (k, v) :: kvs => (k, tagN0 v) :: tagK kvs
+end
+
+/-- the constructed object itself is an n0dict / n0list -/
+def tagTop : Val → Val
+  | .list _ xs => .list .n0 (tagL xs)
+  | v => tagN0 v
+
+def mapT (r : PyM (Val × Str)) : PyM (Val × Str) :=
+  match r with
+  | .ok (v, r) => .ok (tagN0 v, r)
+  | .error e => .error e
+
+theorem tagL_append : ∀ (a : List Val) (v : Val), tagL (a ++ [v]) = tagL a ++ [tagN0 v]
+  | [], v => rfl
+  | x :: a, v => by simp [tagL, tagL_append a v]
+
+theorem tagK_dictInsert : ∀ (acc : List (Str × Val)) (k : Str) (v : Val),
+    tagK (dictInsert acc k v) = dictInsert (tagK acc) k (tagN0 v)
+  | [], k, v => rfl
+  | (k', v') :: acc, k, v => by
+    simp only [dictInsert, tagK]
+    split
+    · rfl
+    · simp only [tagK, tagK_dictInsert acc k v]
+
+theorem dictOfPairs_snoc (ps : List (Str × Val)) (k : Str) (v : Val) :
+    dictOfPairs (ps ++ [(k, v)]) = dictInsert (dictOfPairs ps) k v := by
+  simp [dictOfPairs, List.foldl_append]
+
+theorem pvH_other (f : Nat) (s : Str) (h1 : ∀ r, s ≠ '{' :: r) (h2 : ∀ r, s ≠ '[' :: r) :
+    parseValueH (f + 1) s = parseValue (f + 1) s := by
+  unfold parseValueH
+  split
+  · exact absurd rfl (h1 _)
+  · exact absurd rfl (h2 _)
+  · rfl
+
+theorem pv_scalar (f : Nat) (s : Str) (h1 : ∀ r, s ≠ '{' :: r) (h2 : ∀ r, s ≠ '[' :: r) :
+    mapT (parseValue (f + 1) s) = parseValue (f + 1) s := by
+  unfold parseValue
+  split
+  · simp only [bind, Except.bind]
+    split <;> rfl
+  · exact absurd rfl (h1 _)
+  · exact absurd rfl (h2 _)
+  · rfl
+  · rfl
+  · rfl
+  · rfl
+  · rfl
+  · rfl
+  · unfold parseNumber
+    split
+    · rfl
+    · split <;> rfl
+
+theorem hook_agree : ∀ (f : Nat),
+    (∀ s, parseValueH f s = mapT (parseValue f s)) ∧
+    (∀ s acc, parseItemsH f s (tagL acc) = mapT (parseItems f s acc)) ∧
+    (∀ s ps acc, dictOfPairs ps = tagK acc → parseMembersH f s ps = mapT (parseMembers f s acc))
+  | 0 => ⟨fun _ => rfl, fun _ _ => rfl, fun _ _ _ _ => rfl⟩
+  | f + 1 => by
+    obtain ⟨ihV, ihI, ihM⟩ := hook_agree f
+    refine ⟨?_, ?_, ?_⟩
+    · intro s
+      by_cases h1 : ∃ r, s = '{' :: r
+      · obtain ⟨r, rfl⟩ := h1
+        simp only [parseValueH, parseValue]
+        split
+        · rfl
+        · exact ihM _ [] [] rfl
+      · by_cases h2 : ∃ r, s = '[' :: r
+        · obtain ⟨r, rfl⟩ := h2
+          simp only [parseValueH, parseValue]
+          split
+          · rfl
+          · exact ihI _ []
+        · have h1' : ∀ r, s ≠ '{' :: r := fun r e => h1 ⟨r, e⟩
+          have h2' : ∀ r, s ≠ '[' :: r := fun r e => h2 ⟨r, e⟩
+          rw [pvH_other f s h1' h2', pv_scalar f s h1' h2']
+    · intro s acc
+      simp only [parseItemsH, parseItems, ihV s, bind, Except.bind]
+      cases parseValue f s with
+      | error e => rfl
+      | ok p =>
+        obtain ⟨v, r⟩ := p
+        simp only [mapT]
+        split
+        · simp only [pure, Except.pure, tagN0, tagL_append]
+        · rw [← tagL_append]; exact ihI _ _
+        · rfl
+    · intro s ps acc hps
+      simp only [parseMembersH, parseMembers]
+      have hsn : ∀ (k : Str) (v : Val), dictOfPairs (ps ++ [(k, tagN0 v)]) = tagK (dictInsert acc k v) := by
+        intro k v
+        rw [dictOfPairs_snoc, hps, tagK_dictInsert]
+      split
+      · simp only [bind, Except.bind]
+        split
+        · rfl
+        · split
+          · rw [ihV]
+            cases parseValue f _ with
+            | error e => rfl
+            | ok p =>
+              obtain ⟨v, r3⟩ := p
+              simp only [mapT]
+              split
+              · simp only [pure, Except.pure, tagN0, n0hook, hsn]
+              · exact ihM _ _ _ (hsn _ _)
+              · rfl
+          · rfl
+      · rfl
+
+/-- `json.loads(text, object_pairs_hook=n0dict)` is `json.loads(text)` with every object an n0dict:
+same accepted texts, same error, same values and key order -/
+theorem jsonLoadsHookE_eq (s : Str) : jsonLoadsHookE s = (jsonDecodeE s).map tagN0 := by
+  unfold jsonLoadsHookE jsonDecodeE
+  rw [(hook_agree _).1]
+  simp only [bind, Except.bind]
+  cases parseValue (2 * s.length + 2) (skipWs s) with
+  | error e => rfl
+  | ok p =>
+    obtain ⟨v, r⟩ := p
+    simp only [mapT]
+    split <;> rfl
+
+theorem members_items_shape : ∀ (f : Nat),
+    (∀ s acc v r, parseMembers f s acc = .ok (v, r) → ∃ kvs, v = .dict .plain kvs) ∧
+    (∀ s acc v r, parseItems f s acc = .ok (v, r) → ∃ xs, v = .list .plain xs)
+  | 0 => ⟨fun _ _ _ _ h => by simp [parseMembers] at h, fun _ _ _ _ h => by simp [parseItems] at h⟩
+  | f + 1 => by
+    obtain ⟨ihM, ihI⟩ := members_items_shape f
+    refine ⟨?_, ?_⟩
+    · intro s acc v r h
+      simp only [parseMembers] at h
+      split at h
+      · simp only [bind, Except.bind] at h
+        split at h
+        · cases h
+        · split at h
+          · split at h
+            · cases h
+            · split at h
+              · simp only [pure, Except.pure, Except.ok.injEq, Prod.mk.injEq] at h
+                exact ⟨_, h.1.symm⟩
+              · exact ihM _ _ _ _ h
+              · cases h
+          · cases h
+      · cases h
+    · intro s acc v r h
+      simp only [parseItems, bind, Except.bind] at h
+      split at h
+      · cases h
+      · split at h
+        · simp only [pure, Except.pure, Except.ok.injEq, Prod.mk.injEq] at h
+          exact ⟨_, h.1.symm⟩
+        · exact ihI _ _ _ _ h
+        · cases h
+
+theorem parseValue_brace_shape {f : Nat} {r r' : Str} {v : Val}
+    (h : parseValue (f + 1) ('{' :: r) = .ok (v, r')) : ∃ kvs, v = .dict .plain kvs := by
+  simp only [parseValue] at h
+  split at h
+  · simp only [pure, Except.pure, Except.ok.injEq, Prod.mk.injEq] at h
+    exact ⟨[], h.1.symm⟩
+  · exact (members_items_shape f).1 _ _ _ _ h
+
+theorem parseValue_bracket_shape {f : Nat} {r r' : Str} {v : Val}
+    (h : parseValue (f + 1) ('[' :: r) = .ok (v, r')) : ∃ xs, v = .list .plain xs := by
+  simp only [parseValue] at h
+  split at h
+  · simp only [pure, Except.pure, Except.ok.injEq, Prod.mk.injEq] at h
+    exact ⟨[], h.1.symm⟩
+  · exact (members_items_shape f).2 _ _ _ _ h
+
+theorem jsonDecodeE_ok {s : Str} {v : Val} (h : jsonDecodeE s = .ok v) :
+    ∃ r, parseValue (2 * s.length + 1 + 1) (skipWs s) = .ok (v, r) := by
+  unfold jsonDecodeE at h
+  simp only [bind, Except.bind] at h
+  cases hp : parseValue (2 * s.length + 2) (skipWs s) with
+  | error e => rw [hp] at h; cases h
+  | ok p =>
+    obtain ⟨v', r⟩ := p
+    rw [hp] at h
+    simp only [] at h
+    split at h
+    · simp only [pure, Except.pure, Except.ok.injEq] at h
+      subst h
+      exact ⟨r, rfl⟩
+    · cases h
+
+theorem jsonDecodeE_brace {r : Str} {v : Val} (h : jsonDecodeE ('{' :: r) = .ok v) :
+    ∃ kvs, v = .dict .plain kvs := by
+  obtain ⟨r', hp⟩ := jsonDecodeE_ok h
+  rw [skipWs_cons_of_not (by decide) r] at hp
+  exact parseValue_brace_shape hp
+
+theorem jsonDecodeE_bracket {r : Str} {v : Val} (h : jsonDecodeE ('[' :: r) = .ok v) :
+    ∃ xs, v = .list .plain xs := by
+  obtain ⟨r', hp⟩ := jsonDecodeE_ok h
+  rw [skipWs_cons_of_not (by decide) r] at hp
+  exact parseValue_bracket_shape hp
+
+/-- **`n0dict(text)`** on a text whose first non-blank character is `{`: `json.loads` of the
+stripped text (same acceptance, same error class), every object an n0dict, arrays plain lists -/
+theorem n0dictOfText_json {s r : Str} (hne : s ≠ []) (hs : stripWs s = '{' :: r) :
+    n0dictOfText s = (jsonDecodeE ('{' :: r)).map tagN0 := by
+  unfold n0dictOfText
+  have : s.isEmpty = false := by cases s <;> simp at hne ⊢
+  simp only [this, Bool.false_eq_true, if_false, hs]
+  rw [jsonLoadsHookE_eq]
+  cases hd : jsonDecodeE ('{' :: r) with
+  | error e => rfl
+  | ok v =>
+    obtain ⟨kvs, rfl⟩ := jsonDecodeE_brace hd
+    rfl
+
+/-- **`n0list(text)`** on a text whose first non-blank character is `[` -/
+theorem n0listOfText_json {s r : Str} (hne : s ≠ []) (hs : stripWs s = '[' :: r) :
+    n0listOfText s = (jsonDecodeE ('[' :: r)).map tagTop := by
+  unfold n0listOfText
+  have : s.isEmpty = false := by cases s <;> simp at hne ⊢
+  simp only [this, Bool.false_eq_true, if_false, hs]
+  rw [jsonLoadsHookE_eq]
+  cases hd : jsonDecodeE ('[' :: r) with
+  | error e => rfl
+  | ok v =>
+    obtain ⟨xs, rfl⟩ := jsonDecodeE_bracket hd
+    rfl
+
+/-- the remaining branches of the two constructors -/
+theorem ctor_dispatch (s : Str) :
+    (s = [] → n0dictOfText s = .ok (.dict .n0 []) ∧ n0listOfText s = .ok (.list .n0 [])) ∧
+    (s ≠ [] → (∀ r, stripWs s ≠ '{' :: r) → (∀ r, stripWs s ≠ '<' :: r) → n0dictOfText s = .error .TypeError) ∧
+    (s ≠ [] → (∀ r, stripWs s ≠ '[' :: r) → n0listOfText s = .error .TypeError) := by
+  refine ⟨?_, ?_, ?_⟩
+  · rintro rfl; exact ⟨rfl, rfl⟩
+  · intro hne h1 h2
+    unfold n0dictOfText
+    have : s.isEmpty = false := by cases s <;> simp at hne ⊢
+    simp only [this, Bool.false_eq_true, if_false]
+  · intro hne h1
+    unfold n0listOfText
+    have : s.isEmpty = false := by cases s <;> simp at hne ⊢
+    simp only [this, Bool.false_eq_true, if_false]
+
+/-! exported texts are what the constructors expect: bracketed, nothing to strip -/
+
+theorem stripWs_bracketed {l r : Char} (hl : isPySpace l = false) (hr : isPySpace r = false) (body : Str) :
+    stripWs (l :: (body ++ [r])) = l :: (body ++ [r]) := by
+  unfold stripWs
+  have h1 : (l :: (body ++ [r])).dropWhile isPySpace = l :: (body ++ [r]) := by
+    simp [List.dropWhile, hl]
+  rw [h1]
+  have h2 : (l :: (body ++ [r])).reverse = r :: (body.reverse ++ [l]) := by simp
+  rw [h2]
+  have h3 : (r :: (body.reverse ++ [l])).dropWhile isPySpace = r :: (body.reverse ++ [l]) := by
+    simp [List.dropWhile, hr]
+  rw [h3]
+  simp
+
+theorem Out_bracketed {o : Opts} {t : Val} {s : Str} (h : Out o t s) (hne : s ≠ []) :
+    (isDict t = true → ∃ body, s = '{' :: (body ++ ['}'])) ∧
+    (isDict t = false → (∃ c xs, t = .list c xs) → ∃ body, s = '[' :: (body ++ [']'])) := by
+  rcases h with ⟨_, _, hnil⟩ | ⟨_, hr⟩
+  · exact absurd hnil hne
+  · refine ⟨?_, ?_⟩
+    · intro hd
+      cases t <;> simp [isDict] at hd
+      rw [dropEmptyIf_dict] at hr
+      simp only [Ren] at hr
+      obtain ⟨body, _, rfl⟩ := hr
+      exact ⟨body, rfl⟩
+    · intro _ hl
+      obtain ⟨c, xs, rfl⟩ := hl
+      rw [dropEmptyIf_list] at hr
+      simp only [Ren] at hr
+      obtain ⟨body, _, rfl⟩ := hr
+      exact ⟨body, rfl⟩
+
+theorem isDict_pairOrder (o : Opts) (t : Val) : isDict (pairOrder o t) = isDict t := by
+  cases t with
+  | list c xs => obtain ⟨ys, h⟩ := pairOrder_list_shape o c xs; rw [h]; rfl
+  | _ => rfl
+
+/-- the text exported for a dict is `{…}` -/
+theorem toJson_dict_shape (o : Opts) (c : Cls) (kvs : List (Str × Val)) (hw : wf (.dict c kvs) = true)
+    (hd : depth (.dict c kvs) ≤ 111) : ∃ body, toJson o (.dict c kvs) = '{' :: (body ++ ['}']) := by
+  have hout := jpretty_ren o (.dict c kvs) hw 0 (by omega)
+  unfold toJson
+  by_cases he : (pretty o 0 (.dict c kvs)).isEmpty = true
+  · simp only [he, if_true, isDict]
+    exact ⟨[], rfl⟩
+  · simp only [he, Bool.false_eq_true, if_false]
+    have hne : pretty o 0 (.dict c kvs) ≠ [] := by
+      intro h; rw [h] at he; simp at he
+    exact (Out_bracketed hout hne).1 (by simp [pairOrder, isDict])
+
+/-- the text exported for a list is `[…]` -/
+theorem toJson_list_shape (o : Opts) (c : Cls) (xs : List Val) (hw : wf (.list c xs) = true)
+    (hd : depth (.list c xs) ≤ 111) : ∃ body, toJson o (.list c xs) = '[' :: (body ++ [']']) := by
+  have hout := jpretty_ren o (.list c xs) hw 0 (by omega)
+  unfold toJson
+  by_cases he : (pretty o 0 (.list c xs)).isEmpty = true
+  · simp only [he, if_true, isDict]
+    exact ⟨[], rfl⟩
+  · simp only [he, Bool.false_eq_true, if_false]
+    have hne : pretty o 0 (.list c xs) ≠ [] := by
+      intro h; rw [h] at he; simp at he
+    obtain ⟨ys, hys⟩ := pairOrder_list_shape o c xs
+    exact (Out_bracketed hout hne).2 (by rw [hys]; rfl) ⟨c, ys, hys⟩
+
+theorem jsonDecodeE_of_jsonDecode {s : Str} {v : Val} (h : jsonDecode s = some v) : jsonDecodeE s = .ok v := by
+  unfold jsonDecode at h
+  split at h
+  · simp only [Option.some.injEq] at h; subst h; assumption
+  · cases h
+
+/-- **export, then construct** (dict): `n0dict(x.to_json(…))` is the column-ordered tree, minus
+empty containers under `skip_empty_arrays`, every dict an n0dict and every inner list a plain list -/
+theorem n0dictOfText_toJson (o : Opts) (c : Cls) (kvs : List (Str × Val)) (hw : wf (.dict c kvs) = true)
+    (hd : depth (.dict c kvs) ≤ 111) :
+    n0dictOfText (toJson o (.dict c kvs))
+      = .ok (tagN0 (erase (dropEmptyIf o (pairOrder o (.dict c kvs))))) := by
+  obtain ⟨body, hb⟩ := toJson_dict_shape o c kvs hw hd
+  have hdec := jsonDecodeE_of_jsonDecode (jsonDecode_toJson o _ hw hd)
+  rw [hb] at hdec ⊢
+  rw [n0dictOfText_json (r := body ++ ['}']) (by simp) (stripWs_bracketed (by decide) (by decide) body), hdec]
+  rfl
+
+/-- **export, then construct** (list): `n0list(x.to_json(…))` -/
+theorem n0listOfText_toJson (o : Opts) (c : Cls) (xs : List Val) (hw : wf (.list c xs) = true)
+    (hd : depth (.list c xs) ≤ 111) :
+    n0listOfText (toJson o (.list c xs))
+      = .ok (tagTop (erase (dropEmptyIf o (pairOrder o (.list c xs))))) := by
+  obtain ⟨body, hb⟩ := toJson_list_shape o c xs hw hd
+  have hdec := jsonDecodeE_of_jsonDecode (jsonDecode_toJson o _ hw hd)
+  rw [hb] at hdec ⊢
+  rw [n0listOfText_json (r := body ++ [']']) (by simp) (stripWs_bracketed (by decide) (by decide) body), hdec]
+  rfl
+
 end N0.Json
